@@ -12,6 +12,7 @@ def tasks(run):
         hist = [(rng.choice(names), rng.randrange(1000), rng.choice(['build', 'solve', 'fail', 'abandon'])) for _ in range(rng.choice([1, 2, 3]))]
         out.append(('history', (names[i % len(names)], 100 + i // len(names), hist)))
     out += [('verbosity', (names[i], 7)) for i in range(0, len(names), 3)]
+    out += [('fresh_process', ('T_gd_ssc', 3, 'objects')), ('fresh_process', ('T_blocks', 4, 'objects')), ('fresh_process', ('T_quadratic', 5, 'model'))]
     return out
 
 
